@@ -105,39 +105,7 @@ func checkC06(c *Ctx) {
 			c.R.Violate("R-panic-sites", "panic in "+name, c.Pos(p.Pos()), sprintf("%s contains an explicit panic on a path reachable from a server entry point", name))
 		})
 	}
-	// bare sends
-	for _, fn := range fns {
-		ir.EachInstr(fn, func(_ *ssa.BasicBlock, _ int, in ssa.Instruction) {
-			if s, ok := in.(*ssa.Send); ok {
-				if _, isField, _ := ir.LoadedField(s.Chan); isField != nil {
-					c.R.Violate("R-nonblocking-send", "bare send in "+fname(fn), c.Pos(s.Pos()), sprintf("%s sends on a shared channel outside a select: an absent or slow reader wedges the request path", fname(fn)))
-				}
-			}
-		})
-	}
-	nSel := 0
-	for _, fn := range fns {
-		ir.EachInstr(fn, func(_ *ssa.BasicBlock, _ int, in ssa.Instruction) {
-			sel, ok := in.(*ssa.Select)
-			if !ok {
-				return
-			}
-			hasSend, hasExit := false, !sel.Blocking
-			for _, st := range sel.States {
-				if st.Dir == types.SendOnly {
-					hasSend = true
-				} else {
-					hasExit = true // a receive arm (done / ctx / timer)
-				}
-			}
-			if !hasSend {
-				return
-			}
-			nSel++
-			c.R.Check(hasExit, "R-nonblocking-send", sprintf("send in %s #%d", fname(fn), nSel), c.Pos(sel.Pos()), "the send can give up (default arm or a done/ctx/timer arm)",
-				sprintf("%s has a select that only sends: a full queue blocks the request path forever", fname(fn)))
-		})
-	}
+	serverSendsGiveUp(c, fns, "R-nonblocking-send")
 	c.R.Min("R-nonblocking-send", 10)
 	// close-once
 	for _, cs := range closeSites(c, fns) {
@@ -375,4 +343,43 @@ func requestPathOnly(c *Ctx, fn *ssa.Function) bool {
 		}
 	}
 	return reqOnlyCache[fn]
+}
+
+// serverSendsGiveUp: every send on a shared channel made on a server path can give up — it is an arm of a select that
+// also has a receive arm (done / ctx / timer) or a default. A bare or send-only select blocks its goroutine for as long
+// as nobody reads: when the peer is gone, that is forever.
+func serverSendsGiveUp(c *Ctx, fns []*ssa.Function, rule string) {
+	// bare sends
+	for _, fn := range fns {
+		ir.EachInstr(fn, func(_ *ssa.BasicBlock, _ int, in ssa.Instruction) {
+			if s, ok := in.(*ssa.Send); ok {
+				if _, isField, _ := ir.LoadedField(s.Chan); isField != nil {
+					c.R.Violate(rule, "bare send in "+fname(fn), c.Pos(s.Pos()), sprintf("%s sends on a shared channel outside a select: an absent or slow reader wedges the request path", fname(fn)))
+				}
+			}
+		})
+	}
+	nSel := 0
+	for _, fn := range fns {
+		ir.EachInstr(fn, func(_ *ssa.BasicBlock, _ int, in ssa.Instruction) {
+			sel, ok := in.(*ssa.Select)
+			if !ok {
+				return
+			}
+			hasSend, hasExit := false, !sel.Blocking
+			for _, st := range sel.States {
+				if st.Dir == types.SendOnly {
+					hasSend = true
+				} else {
+					hasExit = true // a receive arm (done / ctx / timer)
+				}
+			}
+			if !hasSend {
+				return
+			}
+			nSel++
+			c.R.Check(hasExit, rule, sprintf("send in %s #%d", fname(fn), nSel), c.Pos(sel.Pos()), "the send can give up (default arm or a done/ctx/timer arm)",
+				sprintf("%s has a select that only sends: a full queue blocks the request path forever", fname(fn)))
+		})
+	}
 }
